@@ -9,6 +9,14 @@ from .ops import _fn
 MAX_DEPTH = 12
 
 
+class VCallbackFn(VCallback):
+    __slots__ = ("recv",)
+
+    def __init__(self, name, spec, recv):
+        super().__init__(name, spec)
+        self.recv = recv
+
+
 class CallMixin:
     # ------------------------------------------------------------ obligations
     def oblige(self, kind, label, term, detail="", aux=False):
@@ -180,7 +188,10 @@ class CallMixin:
                     spec = self.contract.callbacks.get(f"{cn}.{name}")
                     if spec is not None:
                         nm = f"{rec.sym or rec.cls}.{name}"
-                        return self.call_callback(VCallback(nm, spec), args, kwargs, node, frame)
+                        cbv = VCallback(nm, spec)
+                        if spec.get("function"):
+                            cbv = VCallbackFn(nm, spec, recv)
+                        return self.call_callback(cbv, args, kwargs, node, frame)
             # callee contract?
             cc = self.callee_contract(ci, name)
             if cc is not None:
@@ -296,6 +307,13 @@ class CallMixin:
     def call_callback(self, cb: VCallback, args, kwargs, node=None, frame=None):
         run = self.run
         spec = cb.spec if isinstance(cb.spec, dict) else {}
+        if spec.get("function"):
+            # a deterministic, total, side-effect-free collaborator: an uninterpreted function of receiver and arguments
+            rt = parse_type(spec.get("returns", "any"))
+            recv = getattr(cb, "recv", None)
+            ins = ([self.inject(recv)] if recv is not None else []) + [self.inject(a) for a in args]
+            f = z3.Function(spec["function"], *([AnySort] * len(ins)), self.sort_of(rt))
+            return self.wrap(rt, f(*ins))
         self.fire("callback", cb, args, kwargs, node, frame)
         if self.contract is not None and self.ctx is not None and frame is not None:
             for pat, clauses in self.contract.callsite_pre.items():
